@@ -47,7 +47,8 @@ def as_argument(vals, form):
 def plan(tier):
     return {"cases": 3000 if tier == "quick" else 80000, "shards": 16, "case_timeout": 30, "shard_timeout": 3000,
             "hashseeds": [0, 1, 2, 3], "min_nontrivial": 100,
-            "min_counters": {"operations_applied": 8000, "content_checks": 8000, "relation_checks": 2500}}
+            "min_counters": {"operations_applied": 8000, "content_checks": 8000, "relation_checks": 2500,
+                             "tlist_operations": 1000, "tlist_negative_positions": 100}}
 
 
 def setup(ctx):
@@ -55,7 +56,26 @@ def setup(ctx):
     ctx["om"] = ontomodel
 
 
+TLIST_OPS = ["assign_new", "assign_self", "iadd", "append", "extend", "insert", "setitem", "setslice"]
+
+
+def gen_tlist(rng):
+    """a list field managed by a TRANSITIVE property (Org.part_of): recording a written element may append inferred
+    elements to the very list that is being written; positions may be negative"""
+    n_other = rng.randint(3, 6)
+    chains = [[i, j] for i in range(n_other) for j in range(i + 1, n_other) if rng.random() < 0.3]   # e_i part_of e_j
+    start = [rng.randrange(n_other) for _ in range(rng.randint(0, 3))]
+    ops = []
+    for _ in range(rng.randint(1, 6)):
+        ops.append([rng.choice(TLIST_OPS), [rng.randrange(n_other) for _ in range(rng.randint(0, 3))],
+                    rng.randint(-4, 6), rng.choice(ARG_FORMS)])
+    return {"kind": "tlist", "n_other": n_other, "chains": chains, "start": start,
+            "start_form": rng.choice(["ctor", "assign", "append"]), "ops": ops}
+
+
 def gen(rng, tier, ctx):
+    if rng.random() < 0.25:
+        return gen_tlist(rng)
     kind = rng.choice(["list", "set"])
     n_other = rng.randint(2, 5)
     start = [rng.randrange(n_other) for _ in range(rng.randint(0, 3))]
@@ -78,11 +98,155 @@ def witnesses():
         "equal-elements-collapsed-on-slice-assignment": {"kind": "list", "n_other": 4, "start": [1], "start_form": "ctor", "twins": True,
                                                          "ops": [["setslice", [0, 2], 0]]},
         "slice-assignment-of-one-shot-iterable": {"kind": "list", "n_other": 3, "start": [0], "start_form": "ctor", "ops": [["setslice", [1, 2], 1, "gen"]]},
+        "negative-position-resolved-after-inference": {"kind": "tlist", "n_other": 3, "chains": [[1, 2]], "start": [0, 0], "start_form": "ctor",
+                                                       "ops": [["setitem", [1], -1, "list"], ["insert", [1], -1, "list"]]},
         "set-ior-erases-field": {"kind": "set", "n_other": 3, "start": [0], "start_form": "ctor", "ops": [["ior", [1], 0]]},
     }
 
 
+def run_tlist(spec, ctx):
+    from krrood.entity_query_language.symbol_graph import SymbolGraph
+    om = ctx["om"]
+    C = ctx["counters"]
+    SymbolGraph().clear()
+    SymbolGraph()
+    others = [om.Org(f"e{i}") for i in range(spec["n_other"])]
+    for i, j in spec["chains"]:
+        others[i].part_of.append(others[j])
+    start = [others[i] for i in spec["start"]]
+    if spec["start_form"] == "ctor":
+        owner = om.Org("w", part_of=list(start))
+    else:
+        owner = om.Org("w")
+        if spec["start_form"] == "assign":
+            owner.part_of = list(start)
+        else:
+            for x in start:
+                owner.part_of.append(x)
+    named = {o.name: o for o in others}
+    named["w"] = owner
+    name_of = {id(o): n for n, o in named.items()}
+    nm = lambda xs: [name_of.get(id(x), repr(x)) for x in xs]
+    # transitive ancestors of each element (declared chains): what recording an element may add to the field
+    up = {i: set() for i in range(len(others))}
+    changed = True
+    direct = {}
+    for i, j in spec["chains"]:
+        direct.setdefault(i, set()).add(j)
+    while changed:
+        changed = False
+        for i in up:
+            new = set(direct.get(i, ()))
+            for j in list(direct.get(i, ())) + list(up[i]):
+                new |= up.get(j, set()) | direct.get(j, set())
+            if not new <= up[i]:
+                up[i] |= new
+                changed = True
+    idx_of = {id(o): i for i, o in enumerate(others)}
+    ever = set(spec["start"])
+    problems, kinds_seen = [], []
+
+    def expected_inferred():
+        out = set()
+        for i in ever:
+            out |= up[i]
+        return {id(others[i]) for i in out}
+
+    def check(label, model):
+        C["content_checks"] += 1
+        got = list(owner.part_of)
+        # the written list must appear in order inside the field; what is left over must be inferred elements
+        k, leftover = 0, []
+        for x in got:
+            if k < len(model) and x is model[k]:
+                k += 1
+            else:
+                leftover.append(x)
+        allowed = expected_inferred()
+        if k < len(model):
+            problems.append(f"after {label}: field holds {nm(got)}, Python semantics give {nm(model)} (+ inferred elements)")
+            return False
+        bad = [x for x in leftover if id(x) not in allowed]
+        if bad:
+            problems.append(f"after {label}: field holds {nm(got)}: {nm(bad)} were neither written ({nm(model)}) nor can be inferred")
+            return False
+        # (whether the field also holds every inferred element is C15's question, not a question about write forms)
+        return True
+
+    check("start(" + spec["start_form"] + ")", list(start))
+    for op, idxs, pos, form in spec["ops"]:
+        if problems:
+            break
+        vals = [others[i] for i in idxs]
+        before = list(owner.part_of)
+        model = list(before)
+        cont = owner.part_of
+        kinds_seen.append(op + ("-" if pos < 0 and op in ("insert", "setitem", "setslice") else ""))
+        C["argform:" + form] += 1
+        try:
+            if op == "assign_new":
+                owner.part_of = list(vals)
+                model = list(vals)
+            elif op == "assign_self":
+                owner.part_of = owner.part_of
+                vals = []
+            elif op == "iadd":
+                tmp = owner.part_of
+                tmp += as_argument(vals, form)
+                owner.part_of = tmp
+                model = before + vals
+            elif op == "append":
+                if not vals:
+                    continue
+                cont.append(vals[0])
+                model.append(vals[0])
+                vals = vals[:1]
+            elif op == "extend":
+                cont.extend(as_argument(vals, form))
+                model.extend(vals)
+            elif op == "insert":
+                if not vals:
+                    continue
+                cont.insert(pos, vals[0])
+                model.insert(pos, vals[0])
+                vals = vals[:1]
+            elif op == "setitem":
+                if not vals or not before or not (-len(before) <= pos < len(before)):
+                    continue
+                cont[pos] = vals[0]
+                model[pos] = vals[0]
+                vals = vals[:1]
+            elif op == "setslice":
+                cont[pos:pos + 1 if pos != -1 else None] = as_argument(vals, form)
+                model[pos:pos + 1 if pos != -1 else None] = vals
+        except Exception as e:
+            problems.append(f"{op} raised {type(e).__name__}: {e}"[:200])
+            break
+        C["operations_applied"] += 1
+        C["tlist_operations"] += 1
+        if pos < 0 and op in ("insert", "setitem", "setslice"):
+            C["tlist_negative_positions"] += 1
+        ever |= {idx_of[id(v)] for v in vals}
+        check(f"{op}({pos})" if op in ("insert", "setitem", "setslice") else op, model)
+    if not problems:
+        C["relation_checks"] += 1
+        facts = {("w", "part_of", f"e{i}") for i in ever} | {(f"e{i}", "part_of", f"e{j}") for i, j in spec["chains"]}
+        exp = OC.closure(facts, {}, {})
+        rel = set(OC.observe_graph(named, SymbolGraph()))
+        if not exp <= rel:
+            problems.append(f"graph lacks relations of elements written to the field: {sorted(exp - rel)[:5]} (ops {kinds_seen})")
+        if rel - exp:
+            problems.append(f"graph has relations nobody asserted: {sorted(rel - exp)[:5]}")
+    shape = f"tlist|{spec['start_form']}|" + ",".join(kinds_seen)
+    if problems:
+        return {"status": "fail", "kind": "write-form", "key": None, "detail": "; ".join(problems[:3]) + " | " + shape}
+    return {"status": "ok", "nontrivial": len(set(kinds_seen)) >= 2 and len(owner.part_of) > 0, "shape": shape,
+            "obs": {"ops": kinds_seen, "final": len(owner.part_of)}}
+
+
 def run(spec, ctx):
+    if spec["kind"] == "tlist":
+        return run_tlist(spec, ctx)
     from krrood.entity_query_language.symbol_graph import SymbolGraph
     om = ctx["om"]
     C = ctx["counters"]
